@@ -147,17 +147,30 @@ where
         let ast = ast_validation.ast();
         // Check that StorageT is big enough to hold RIdx/PIdx/SIdx/TIdx values; after these
         // checks we can guarantee that things like RIdx(ast.rules.len().as_()) are safe.
-        if ast.rules.len() > num_traits::cast(StorageT::max_value()).unwrap() {
+        //
+        // Note that the grammar stores more than the AST contains: the start rule (with its
+        // production) and the EOF token are always added; with implicit tokens (Eco) there are two
+        // further rules, one production per implicit token plus two more, and every token in a
+        // production is followed by a reference to the implicit rule.
+        let storaget_max: usize = num_traits::cast(StorageT::max_value()).unwrap();
+        let (extra_rules, extra_prods, sym_factor) = match (
+            ast_validation.yacc_kind(),
+            ast.implicit_tokens.as_ref(),
+        ) {
+            (YaccKind::Eco, Some(it)) => (3, it.len() + 3, 2),
+            _ => (1, 1, 1),
+        };
+        if ast.rules.len() + extra_rules > storaget_max {
             panic!("StorageT is not big enough to store this grammar's rules.");
         }
-        if ast.tokens.len() > num_traits::cast(StorageT::max_value()).unwrap() {
+        if ast.tokens.len() + 1 > storaget_max {
             panic!("StorageT is not big enough to store this grammar's tokens.");
         }
-        if ast.prods.len() > num_traits::cast(StorageT::max_value()).unwrap() {
+        if ast.prods.len() + extra_prods > storaget_max {
             panic!("StorageT is not big enough to store this grammar's productions.");
         }
         for p in &ast.prods {
-            if p.symbols.len() > num_traits::cast(StorageT::max_value()).unwrap() {
+            if p.symbols.len() * sym_factor > storaget_max {
                 panic!(
                     "StorageT is not big enough to store the symbols of at least one of this grammar's productions."
                 );
